@@ -13,8 +13,8 @@ import time
 import traceback
 
 VERIF = os.path.dirname(os.path.dirname(os.path.abspath(__file__)))
-EVIDENCE_DIR = os.path.join(VERIF, 'evidence')
-REPLAY_DIR = os.path.join(VERIF, 'replays')
+EVIDENCE_DIR = os.environ.get('VERIF_EVIDENCE_DIR') or os.path.join(VERIF, 'evidence')
+REPLAY_DIR = os.environ.get('VERIF_REPLAY_DIR') or os.path.join(VERIF, 'replays')
 KNOWN_FILE = os.path.join(VERIF, 'known_findings.json')
 DEFAULT_SEED = 20260921
 MASK = (1 << 64) - 1
